@@ -108,7 +108,7 @@ func c12Scenario(pos int, ext, E string) (tpls map[string]string, main string, d
 var c12Forms = []string{"x", "o.attr", "f()", "(x ~ '')", "(c ? x : '')", "\"#{x}\""}
 
 // modifiers: 0 none, 1 raw, 2 escape, 3 escape('html'), 4 escape(own type), 5 escape('js'), 6 safe for the same type, 7 safe for another type
-const c12Mods = 8
+const c12Mods = 10
 
 type c12Loader struct{ m map[string]string }
 
@@ -150,6 +150,14 @@ func c12Once(typ, mid, payload string) (string, string) {
 	return "", ""
 }
 
+// c12Inert: the printed form must lie in the inert alphabet of the template's content type.
+func c12Inert(typ, mid, desc, out string) core.Result {
+	if msg := c12Escaper(typ).alphabet(mid); msg != "" {
+		return core.Violation("unescaped", fmt.Sprintf("%s renders %q: the printed form %q is not inert for %s: %s", desc, out, mid, typ, msg))
+	}
+	return core.Okay(true, "inert "+mid)
+}
+
 func c12Run(c core.Case) core.Result {
 	// N = [pos, form, payload, name (-1 inline, -2 inline with dot), mod]
 	pos, form, pi, ni, mod := c.N[0], c.N[1], c.N[2], c.N[3], c.N[4]
@@ -173,6 +181,10 @@ func c12Run(c core.Case) core.Result {
 		E += "|escape('" + typ + "')"
 	case 5:
 		E += "|escape('js')"
+	case 8:
+		E += "|escape('txt')"
+	case 9:
+		E += "|escape('nosuch')|upper|escape('txt')"
 	}
 	if (mod == 6 || mod == 7) && form > 2 {
 		return core.Skipped("safe-value-lost-by-expression")
@@ -257,16 +269,24 @@ func c12Run(c core.Case) core.Result {
 		want = ""
 	case 2, 3:
 		if typ == "js" || typ == "css" {
-			return core.Okay(false, "explicit-html-escape-in-"+typ+"-not-asserted")
+			// "escaped exactly once" is ambiguous here (html only, or html then js); what the statement pins
+			// under either reading is that only raw / same-type safe values get around the template's type:
+			// the output must be inert for it
+			return c12Inert(typ, mid, desc, out)
 		}
 		want = "html"
 	case 5:
 		if typ == "css" {
-			return core.Okay(false, "explicit-js-escape-in-css-not-asserted")
+			return c12Inert(typ, mid, desc, out)
 		}
 		want = "js" // html-inert, so this holds under either reading of "no double escaping"
 	case 6:
 		want = ""
+	case 8, 9:
+		if typ == "" {
+			return core.Okay(false, "txt")
+		}
+		return c12Inert(typ, mid, desc, out)
 	}
 	class, msg := c12Once(want, mid, payload)
 	if class != "" {
@@ -305,7 +325,7 @@ func c12Levels(tier string) []core.Level {
 		{Name: "22 print positions x variable x all 13 payloads x all 18 template names x no modifier", Gen: func(emit func(core.Case)) {
 			gen(all(len(c12Payloads)), []int{0}, []int{0}, names, emit)
 		}},
-		{Name: "22 positions x 6 value forms x 13 payloads x 18 names x 8 modifiers (full product)", Gen: func(emit func(core.Case)) {
+		{Name: "22 positions x 6 value forms x 13 payloads x 18 names x 10 modifiers (full product)", Gen: func(emit func(core.Case)) {
 			gen(all(len(c12Payloads)), all(len(c12Forms)), all(c12Mods), names, emit)
 		}},
 	}
@@ -316,10 +336,10 @@ func init() {
 	core.Register(&core.Check{
 		ID:       "C12",
 		Category: "exploration",
-		Rule: "full product of 22 print positions (top level, if / else / elseif branch, for body, for-else, block, nested block, overriding block of a child, block via parent(), inherited block, included template, embedded template, embed override block, set-capture body, filter section, macro body, imported macro; macro result / capture / parent() / block() printed with |raw) x 6 value forms (variable, attribute, function result, concatenation, conditional, interpolation) x 13 payloads (< > \" ' & </script> \\ ; newline, multi-byte, astral, mixed) x 18 template names (html, js, css, txt with and without .twig, no extension, unknown extension, trailing dot, inline sources without a dot, with dots, and ending in '.txt' / '.js' / '.css.twig') x 8 modifiers (none, raw, escape, escape('html'), escape(own type), escape('js'), value marked safe for the same / another type), in a twig.New environment. " +
+		Rule: "full product of 22 print positions (top level, if / else / elseif branch, for body, for-else, block, nested block, overriding block of a child, block via parent(), inherited block, included template, embedded template, embed override block, set-capture body, filter section, macro body, imported macro; macro result / capture / parent() / block() printed with |raw) x 6 value forms (variable, attribute, function result, concatenation, conditional, interpolation) x 13 payloads (< > \" ' & </script> \\ ; newline, multi-byte, astral, mixed) x 18 template names (html, js, css, txt with and without .twig, no extension, unknown extension, trailing dot, inline sources without a dot, with dots, and ending in '.txt' / '.js' / '.css.twig') x 10 modifiers (none, raw, escape, escape('html'), escape(own type), escape('js'), escape('txt'), a chain of unknown strategies, value marked safe for the same / another type), in a twig.New environment. " +
 			"Oracle: expected content type = registered escaper of the extension, none for txt, html otherwise; a directly printed value must decode (decoder of that context) to the payload and lie in the context's inert alphabet: escaped exactly once; raw and same-type safe values verbatim; values reaching the output through a capture / macro result / parent() must be inert. distinct = distinct configuration; non-trivial = an assertion was made",
 		Assumptions: []string{
-			"an explicit html escape inside a js/css template and an explicit js escape inside a css template are ambiguous ('no double escaping' vs. 'escaped for the template's type') and not asserted",
+			"for an explicit escape of another type (html inside js/css, js inside css, txt or an unknown strategy anywhere) 'exactly once' is ambiguous; only inertness for the template's own type is asserted, which the statement pins under either reading",
 			"raw / safe values that pass through a capture or macro result before being printed again are not claimed",
 			"decoders as in C13",
 		},
